@@ -815,6 +815,9 @@ write_constant_info (const gchar    *namespace,
   write_constant_value (namespace, type, &value, file);
   xml_printf (file, "\"");
 
+  if (g_base_info_is_deprecated ((GIBaseInfo *)info))
+    xml_printf (file, " deprecated=\"1\"");
+
   write_type_info (namespace, type, file);
 
   write_attributes (file, (GIBaseInfo*) info);
